@@ -8,9 +8,16 @@ import FerrousSpec.Model.Tx
 import FerrousSpec.Gen.Tx
 namespace Ferrous.Tx
 
+/-- names the source executes at once between MULTI and EXEC although they are not transaction-control
+    commands proper: handled before the queue test, or refused by `should_queue_command` -/
+def immediateOfSource : List String :=
+  (Gen.preQueue ++ Gen.txPassThrough.filter fun n => !Gen.preQueue.contains n).filter fun n => !controlNames.contains n
+
 def Quirks.ofSource : Quirks :=
-  { immediate := Gen.preQueue.filter fun n => !Gen.txPassThrough.contains n
+  { immediate := immediateOfSource
     selectInExecIgnored := Gen.execSelectIgnored
-    blockingInExecNoResponse := Gen.blockingInExecUnguarded }
+    blockingInExecNoResponse := Gen.blockingInExecUnguarded
+    controlArityUnchecked := Gen.controlArityUnchecked
+    connCommandsUnderConnZero := Gen.execClientUnderConnZero }
 
 end Ferrous.Tx
